@@ -1962,9 +1962,10 @@ emit_single_member_OER_constraint_value(arg_t *arg, asn1cnst_range_t *range) {
                 width = 1;
             } else if(ub <= 65535) {
                 width = 2;
-            } else if((unsigned long long)ub <= 4294967295UL) {
+            } else if(ub <= (asn1c_integer_t)4294967295UL) {
                 width = 4;
-            } else if((unsigned long long)ub <= 18446744073709551615ULL) {
+            } else if(ub == (asn1c_integer_t)(unsigned long long)ub) {
+                /* Fits 64 bits; wider (128-bit asn1c_integer_t): variable */
                 width = 8;
             }
             positive = 1;
